@@ -252,6 +252,12 @@ func ruleStrictConverge(c *Ctx, rule string, shorts ...string) {
 					if op == token.LSS || op == token.GTR {
 						// the positions stop before they meet: the letter in the middle of an odd-length sequence is
 						// complemented separately, under a test that the two positions have met
+						// the loop only exchanges the ends, and a pass of its own complements every letter afterwards
+						// (reverse the letter/quality pairs as units, then complement in place)
+						if pureSwapThenFullPass(fn, l) {
+							c.ok(rule, key, bf.cond.Pos(), "the converging loop only exchanges the two ends; every letter, the middle one included, is complemented by a pass over the whole sequence")
+							continue
+						}
 						middle := false
 						for _, b := range fn.Blocks {
 							if l.body[b] {
@@ -286,6 +292,74 @@ func ruleStrictConverge(c *Ctx, rule string, shorts ...string) {
 	if n == 0 {
 		c.und(rule, "strictconverge", token.NoPos, "no converging two-position loop found in a RevComp method")
 	}
+}
+
+// pureSwapThenFullPass: the converging loop never reads the complement table,
+// and another loop of the function, bounded by the length of a slice and not
+// nested with the first, stores a value read from that table.
+func pureSwapThenFullPass(fn *ssa.Function, l *ssaLoop) bool {
+	var table ssa.Value
+	for _, b := range fn.Blocks {
+		for _, ins := range b.Instrs {
+			if call, ok := ins.(*ssa.Call); ok && calleeName(&call.Call) == "ComplementTable" {
+				table = call
+			}
+		}
+	}
+	if table == nil {
+		return false
+	}
+	readsTable := func(b *ssa.BasicBlock) bool {
+		for _, ins := range b.Instrs {
+			if ia, ok := ins.(*ssa.IndexAddr); ok && ia.X == table {
+				return true
+			}
+			if ix, ok := ins.(*ssa.Index); ok && ix.X == table {
+				return true
+			}
+		}
+		return false
+	}
+	for b := range l.body {
+		if readsTable(b) {
+			return false
+		}
+	}
+	for _, l2 := range naturalLoops(fn) {
+		if l2 == l || l2.body[l.head] || l.body[l2.head] {
+			continue
+		}
+		// bounded by a length, from the first element
+		whole := false
+		if ifi, ok := l2.head.Instrs[len(l2.head.Instrs)-1].(*ssa.If); ok {
+			if bo, ok := ifi.Cond.(*ssa.BinOp); ok && bo.Op == token.LSS && builtinCall(bo.Y, "len") != nil {
+				whole = true
+			}
+		}
+		if !whole {
+			continue
+		}
+		reads, stores := false, false
+		for b := range l2.body {
+			if readsTable(b) {
+				reads = true
+			}
+			for _, ins := range b.Instrs {
+				if st, ok := ins.(*ssa.Store); ok {
+					if _, ok := st.Addr.(*ssa.FieldAddr); ok {
+						stores = true
+					}
+					if _, ok := st.Addr.(*ssa.IndexAddr); ok {
+						stores = true
+					}
+				}
+			}
+		}
+		if reads && stores {
+			return true
+		}
+	}
+	return false
 }
 
 // meetingBranch: inside the loop a branch tests the two positions for equality,
